@@ -7,6 +7,7 @@
 #include <math.h>
 #include <deque>
 #include <rtosc/miditable.h>
+#include <set>
 #include <rtosc/ports.h>
 #include <rtosc/port-sugar.h>
 using namespace vh;
@@ -89,6 +90,20 @@ int main(int argc, char **argv)
         int naddr = (int)r.range(2, 4), nctl = (int)r.range(2, 6);
         { std::vector<int> idx = {0, 1, 2, 3, 4, 5, 6, 7}; for(int i = 0; i < 4; ++i) { size_t k = i + r.below(idx.size() - i); std::swap(idx[i], idx[k]); PARAMS[i] = ALL_PARAMS[idx[i]]; if(i < naddr && idx[i] >= 4) count("params.int_range_next_to_0_127"); } }
         int ops = (int)r.range(1, 30);
+        // long histories: the realtime side's pending ring (32 entries) wraps after 32 learn cycles
+        bool long_history = r.chance(0.04);
+        if(long_history) { ops = (int)r.range(300, 700); count("histories.long"); }
+        // controllers: plain numbers on channel 1, or the same few numbers on several channels / as NRPN
+        int FULL[8] = {0, 1, 2, 3, 4, 5, 6, 7};
+        if(r.chance(0.35)) {
+            std::set<int> used;
+            for(int i = 1; i <= 6; ++i) {
+                int id;
+                do { static const int PAR[] = {7, 10, 74}; static const int CH[] = {1, 2, 3, 16}; id = ((int)r.chance(0.2) << 18) + ((CH[r.below(4)] - 1) << 14) + PAR[r.below(3)]; } while(used.count(id));
+                used.insert(id); FULL[i] = id;
+            }
+            count("histories.controllers_on_several_channels");
+        }
         g_hist = fmt("addresses=%d controllers=%d:", naddr, nctl);
         for(int i = 0; i < naddr; ++i) g_hist += fmt(" %s:%c[%g,%g]", PARAMS[i].addr, PARAMS[i].type, PARAMS[i].mn, PARAMS[i].mx);
         g_hist += " ::";
@@ -132,12 +147,12 @@ int main(int argc, char **argv)
                 nrt.map(PARAMS[ai].addr, coarse);
                 count("ops.map");
             } else if(k < 13) {
-                int id = (int)r.below(nctl) + 1, val = (int)r.range(0, 127);
-                if(f.k >= 0) { id = f.id; val = f.val; }
+                int id = FULL[(int)r.below(nctl) + 1], val = (int)r.range(0, 127);
+                if(f.k >= 0) { id = FULL[f.id]; val = f.val; }
                 g_hist += fmt(" CC(%d,%d)", id, val);
                 g_backend.clear();
                 size_t nfront = to_nrt.size();
-                rt.handleCC(id, val, 1, false);
+                rt.handleCC(id & 0x3fff, val, (char)(((id >> 14) & 0xf) + 1), (id >> 18) & 1);
                 count("ops.cc");
                 // expectation
                 const Entry *e = 0;
